@@ -271,6 +271,14 @@ func (r *Reader) parseWorksheets() error {
 }
 
 // parseWorksheet parses a single worksheet.
+// Limits of a worksheet: Excel's own (1,048,576 rows x 16,384 columns) and the
+// number of cells the dense grid may hold.
+const (
+	maxSheetRows  = 1048576
+	maxSheetCols  = 16384
+	maxSheetCells = 4 << 20
+)
+
 func (r *Reader) parseWorksheet(data []byte, name string, index int) (*Sheet, error) {
 	var ws worksheetXML
 	if err := xml.Unmarshal(data, &ws); err != nil {
@@ -321,6 +329,14 @@ func (r *Reader) parseWorksheet(data []byte, name string, index int) (*Sheet, er
 				maxRow = cellRow + 1
 			}
 		}
+	}
+
+	// The grid below is dense: its size comes from the highest row and column
+	// the file names, not from the number of cells it holds. Refuse dimensions
+	// no spreadsheet has and grids that would not fit in memory instead of
+	// allocating them (a single cell at XFD1048576 asks for 17 billion cells).
+	if maxRow > maxSheetRows || maxCol >= maxSheetCols || maxRow*(maxCol+1) > maxSheetCells {
+		return nil, fmt.Errorf("worksheet %q spans %d rows x %d columns: too large to load", name, maxRow, maxCol+1)
 	}
 
 	sheet.MaxRow = maxRow - 1 // Convert to 0-indexed
